@@ -47,13 +47,17 @@ TruthAll(tr, kvs) ==
   ELSE TruthAll([tr EXCEPT ![Head(kvs)[1]] = NAdd(@, Head(kvs)[2])], Tail(kvs))
 ValSum(kvs) == NSumSeq([i \in 1..Len(kvs) |-> kvs[i][2]])
 
-AddMany(s, kvs, o) ==
-  LET post == LinAddAll(sk[s], [i \in 1..Len(kvs) |-> <<Col(kvs[i][1]), kvs[i][2]>>])
-  IN  /\ sk'    = [sk EXCEPT ![s] = post]
+\* (the successor is computed once: post is an operator argument, which TLC caches inside an action,
+\* and the sequences are forced -- a lazily built sequence is rebuilt by every Head/Tail)
+AddManyTo(s, kvs, o, post) ==
+      /\ sk'    = [sk EXCEPT ![s] = post]
       /\ truth' = [truth EXCEPT ![s] = TruthAll(@, kvs)]
       /\ cut'   = [cut EXCEPT ![s] = @ \/ post.nadd # NAdd(sk[s].nadd, ValSum(kvs))]
       /\ op'    = o
       /\ UNCHANGED env
+AddMany(s, kvs0, o) ==
+  LET kvs == TLCEval(kvs0)
+  IN  AddManyTo(s, kvs, o, TLCEval(LinAddAll(sk[s], TLCEval([i \in 1..Len(kvs) |-> <<Col(kvs[i][1]), kvs[i][2]>>]))))
 
 Add(s, k, v)      == AddMany(s, <<<<k, v>>>>, [name |-> "add", s |-> s, k |-> k, v |-> v])
 UpdateList(s, ks) == AddMany(s, [i \in 1..Len(ks) |-> <<ks[i], NOf(1)>>],
